@@ -207,3 +207,29 @@ func (k *Key) Reveal(code uint64) string {
 	}
 	return s
 }
+
+// NewKeyLeadingZero draws keys until one has a coordinate starting with a zero byte (probability about 1/64 per draw
+// for the 256- and 384-bit curves, 1/2 for P-521); ok=false when none was found within the budget. Ed25519: x only.
+func NewKeyLeadingZero(r *fw.Rand, typ string, budget int) (*Key, bool) {
+	for i := 0; i < budget; i++ {
+		k := NewKey(r, typ)
+		x, y := k.XY()
+		if x[0] == 0 || (len(y) > 0 && y[0] == 0) {
+			return k, true
+		}
+	}
+	return NewKey(r, typ), false
+}
+
+// Mirror returns the public key (x, p - y): a different valid key on the same curve sharing the x coordinate.
+// Its private part is n - d, so it can sign as well. nil for Ed25519.
+func (k *Key) Mirror() *Key {
+	if k.Type == Ed25519 {
+		return nil
+	}
+	c := k.EC.Curve
+	p := c.Params().P
+	y := new(big.Int).Sub(p, k.EC.Y)
+	d := new(big.Int).Sub(c.Params().N, k.EC.D)
+	return &Key{Type: k.Type, Nonce: k.Nonce, EC: &ecdsa.PrivateKey{PublicKey: ecdsa.PublicKey{Curve: c, X: new(big.Int).Set(k.EC.X), Y: y}, D: d}}
+}
